@@ -74,6 +74,20 @@ Theorem envelope_message_sanitised : forall id r id' m,
 Proof. exact ProofsErr.subscribe_initial_messages. Qed.
 Print Assumptions envelope_message_sanitised.
 
+(** Only an error that IS a SanitizedError is passed on.  An ordinary error that merely wraps a safe
+    one (fmt.Errorf("...: %w", safeErr)) is nested under its response path like any other and reaches
+    the client as the fixed generic message. *)
+Theorem only_sanitized_errors_are_forwarded : forall e,
+  sanitize e <> "Internal server error" -> safe (pe_err e) = true.
+Proof. exact ProofsErr.only_sanitized_forwarded. Qed.
+Print Assumptions only_sanitized_errors_are_forwarded.
+
+Theorem error_wrapping_a_safe_one_is_not_forwarded : forall p t,
+  nest p (mk_err EWrapsSafe t) = mk_perr (mk_err EWrapsSafe t) p /\
+  sanitize (nest p (mk_err EWrapsSafe t)) = "Internal server error".
+Proof. exact ProofsErr.wraps_safe_not_forwarded. Qed.
+Print Assumptions error_wrapping_a_safe_one_is_not_forwarded.
+
 (** An initially failing subscription yields exactly one error envelope, then its closure. *)
 Theorem failing_subscription_reported_once_then_closed : forall id e,
   subscribe_initial id (RErr e) = [WError id (sanitize e); WClosed id].
